@@ -20,9 +20,11 @@ pub struct Objs {
     grt: OnceCell<tokio::runtime::Runtime>,
     ginit: Cell<bool>,
     tmp_seq: Cell<u64>,
+    /// calls that did not return (each costs its whole time limit): after three of them the big-input and yield cells stop
+    hangs: Cell<u32>,
 }
 impl Objs {
-    pub fn new() -> Self { Objs { grt: OnceCell::new(), ginit: Cell::new(false), tmp_seq: Cell::new(0) } }
+    pub fn new() -> Self { Objs { grt: OnceCell::new(), ginit: Cell::new(false), tmp_seq: Cell::new(0), hangs: Cell::new(0) } }
     fn tmp_dir(&self, tag: &str) -> std::path::PathBuf {
         let k = self.tmp_seq.get();
         self.tmp_seq.set(k + 1);
@@ -34,6 +36,17 @@ impl Objs {
 }
 
 fn s_only(cx: &mut Ctx, cell: &str) { cx.sum.cell_status(cell, "S-only"); }
+
+/// a task type that implements `execute` only: priority, stealability and estimated duration are the trait's defaults
+struct DefaultsTask(CountTask);
+impl Task for DefaultsTask {
+    fn execute(self: Box<Self>) -> Pin<Box<dyn Future<Output = ZResult<()>> + Send>> { Box::new(self.0).execute() }
+}
+/// task i of a lifecycle / global-executor case is built as kind i % 4: the harness's Task, ClosureTask, submit_closure, and - where
+/// the code asks for priority 0 and a task that may be stolen - a Task with the trait's default methods
+fn submit_mixed(ex: &WorkStealingExecutor, i: usize, t: CountTask) -> ZResult<()> {
+    if i % 4 == 3 && t.prio == 0 && t.steal { ex.submit(Box::new(DefaultsTask(t))) } else { submit_k(ex, (i % 4).min(2) as u8, i, t) }
+}
 
 /// n items none of which fails, panics or times out in the shared stage function, derived from (seed, k); then one failing
 /// (13 mod 16), panicking (30 mod 64) or slow (7 mod 32) item at the given position
@@ -66,7 +79,7 @@ fn diff<T: PartialEq + std::fmt::Debug>(got: &Option<Vec<T>>, want: &Option<Vec<
 // cell: one executor through several waves, statistics at rest, shutdown, and submissions after the shutdown
 // ---------------------------------------------------------------------------------------------
 
-/// ops: task code = submit (task i is built as kind i % 3: own Task / ClosureTask / submit_closure), 1 = wait until everything
+/// ops: task code = submit (task i is built as kind i % 4, see submit_mixed), 1 = wait until everything
 /// accepted so far has run, then is_idle() and stats().total_executed must agree, 2 = let the workers go idle (3 ms),
 /// 3 = shutdown().  A submission the executor accepts after its shutdown is still an accepted task: it must run (or be refused).
 fn life_case(cx: &mut Ctx, nw: usize, cap: usize, rt: usize, ops: &[i64]) {
@@ -80,6 +93,8 @@ fn life_case(cx: &mut Ctx, nw: usize, cap: usize, rt: usize, ops: &[i64]) {
         let n = nsub;
         let counters: Arc<Vec<AtomicU32>> = Arc::new((0..2 * n + 1).map(|_| AtomicU32::new(0)).collect());
         let child: Arc<Vec<AtomicU32>> = Arc::new((0..n + 1).map(|_| AtomicU32::new(0)).collect());
+        // an executor without workers could never run anything: refused at construction
+        if WorkStealingExecutor::new(0, cap).is_ok() { return Some(format!("new(0, {}) returned an executor without workers", cap)); }
         let ex = match WorkStealingExecutor::new(nw, cap) { Ok(e) => e, Err(e) => return Some(format!("new({}, {}) failed: {:?}", nw, cap, e)) };
         let mut accept: Vec<bool> = vec![];
         let mut before_shutdown: Vec<bool> = vec![];
@@ -101,7 +116,7 @@ fn life_case(cx: &mut Ctx, nw: usize, cap: usize, rt: usize, ops: &[i64]) {
                 let i = accept.len();
                 let t = CountTask { id: i, prio: code_prio(o), steal: code_steal(o), beh: code_beh(o), counters: counters.clone(),
                                     nest: if code_beh(o) == 5 { Some((ex.clone(), n, child.clone())) } else { None } };
-                accept.push(submit_k(&ex, (i % 3) as u8, i, t).is_ok());
+                accept.push(submit_mixed(&ex, i, t).is_ok());
                 before_shutdown.push(!shut);
             } else if o == 2 {
                 tokio::time::sleep(Duration::from_millis(3)).await;
@@ -193,7 +208,7 @@ fn global_case(cx: &mut Ctx, ops: &[i64]) {
             for (i, &c) in opv.iter().enumerate() {
                 let t = CountTask { id: i, prio: code_prio(c), steal: code_steal(c), beh: code_beh(c), counters: counters.clone(),
                                     nest: if code_beh(c) == 5 { Some((ex.clone(), n, child.clone())) } else { None } };
-                accept.push(submit_k(&ex, (i % 3) as u8, i, t).is_ok());
+                accept.push(submit_mixed(&ex, i, t).is_ok());
                 if i % 5 == 4 { tokio::task::yield_now().await; }
             }
             let pending = || -> Vec<usize> {
